@@ -39,6 +39,9 @@ type C12Case struct {
 	Filters  int          `json:"filters"`           // container filters (exercise the composed chain)
 	Options  string       `json:"options,omitempty"` // "", "filter" (Container.OPTIONSFilter), "cors" (CORS filter with computed methods)
 	Fillers  int          `json:"fillers,omitempty"` // extra never-changing routes on the dynamic-routes service
+	// SharedPrefix: the changing services live on /m/{t}/s<i> next to a never-changing /m/{t}/keep:
+	// they all share one ServeMux pattern (the fixed prefix /m/), whose bookkeeping Add and Remove touch
+	SharedPrefix bool `json:"shared_prefix,omitempty"`
 	// Stepped: park one request at a pause point while a mutation of its own target runs.
 	Stepped *c12Step `json:"stepped,omitempty"`
 }
@@ -56,6 +59,7 @@ func genC12(t *rapid.T) C12Case {
 	c.Filters = rapid.IntRange(0, 3).Draw(t, "filters")
 	c.Options = rapid.SampledFrom([]string{"", "", "filter", "cors"}).Draw(t, "options")
 	c.Fillers = rapid.SampledFrom([]int{0, 0, 50, 500}).Draw(t, "fillers")
+	c.SharedPrefix = rapid.IntRange(0, 2).Draw(t, "sharedprefix") == 0
 	if rapid.IntRange(0, 3).Draw(t, "stepped") == 0 {
 		points := []string{"cond", "filter", "handler"}
 		if c.Options != "" {
@@ -231,6 +235,19 @@ func checkC12(c C12Case) (vs []*Violation) {
 		stables[i].want = outcome(stables[i].method, stables[i].path, false)
 	}
 
+	if c.SharedPrefix {
+		keep := new(restful.WebService)
+		keep.Path("/m/{t}/keep")
+		keep.Route(keep.GET("/x").To(handler("keep")))
+		ct.Add(keep)
+	}
+	var mutPanicMu sync.Mutex
+	var mutPanics []string
+	mutPanic := func(s string) {
+		mutPanicMu.Lock()
+		mutPanics = append(mutPanics, s)
+		mutPanicMu.Unlock()
+	}
 	// changing targets, one per mutator
 	var targets []*c12Target
 	var mutate []func(on bool)
@@ -238,12 +255,21 @@ func checkC12(c C12Case) (vs []*Violation) {
 		i := i
 		if m.Kind == "service" {
 			ws := new(restful.WebService)
-			ws.Path("/m" + strconv.Itoa(i))
+			root, url := "/m"+strconv.Itoa(i), "/m"+strconv.Itoa(i)+"/x"
+			if c.SharedPrefix {
+				root, url = "/m/{t}/s"+strconv.Itoa(i), "/m/v/s"+strconv.Itoa(i)+"/x"
+			}
+			ws.Path(root)
 			id := "m" + strconv.Itoa(i) + "-x"
 			ws.Route(ws.GET("/x").If(cond).To(handler(id)))
-			tg := &c12Target{path: "/m" + strconv.Itoa(i) + "/x", routeID: id}
+			tg := &c12Target{path: url, routeID: id}
 			targets = append(targets, tg)
 			mutate = append(mutate, func(on bool) {
+				defer func() {
+					if p := recover(); p != nil {
+						mutPanic(fmt.Sprintf("Add/Remove(on=%v) of the service on %s panicked: %v", on, root, p))
+					}
+				}()
 				if on {
 					ct.Add(ws)
 				} else {
@@ -421,6 +447,17 @@ func checkC12(c C12Case) (vs []*Violation) {
 			addV(viol("", "goroutines did not finish within 120s; dump shows blocked goroutines:\n%s", truncate([]byte(dump), 3000)))
 		} else {
 			inconclusive("C12", "TestC12", "goroutines did not finish within 120s and the dump shows no blocked goroutine")
+		}
+	}
+	mutPanicMu.Lock()
+	for _, m := range mutPanics {
+		addV(viol("", "%s", m))
+	}
+	mutPanicMu.Unlock()
+	if c.SharedPrefix {
+		labels = append(labels, "changing_services_share_a_mux_pattern")
+		if got := outcome("GET", "/m/v/keep/x", false); len(vs) == 0 && !strings.HasPrefix(got, "status=200 route=\"keep\"") {
+			addV(viol("", "GET /m/v/keep/x on the never-changing service next to the changing ones: %s", got))
 		}
 	}
 	if len(vs) == 0 {
